@@ -17,7 +17,8 @@ CLAIMED = {
  'C11': dict(cat='model_checking', ref='DESIGN.md section 3 (C11)',
     text='Bounded model checking of the three validity kernels in every specialization: for arbitrary (valid and invalid) '
          'buffer contents and lengths <= 3 (quick) / 4 (thorough) the solver shows error <=> some documented rule is broken, and '
-         'that the reported position is the first offender; plus closure obligations on index-producing kernels.',
+         'that the reported position is the first offender; plus closure obligations on index-producing kernels, and at the C++ method level: simplify_optiontype over nested '
+         'indexed / option nodes and mergemany of indexed nodes never yield a non-option node with a negative index.',
     note='Kernel level only: the C++ validityerror methods (parameter and canonical-form checks) and Python ak.is_valid need '
          'rapidjson/pybind11 and are outside the claim. Trusted: IR encoder, z3, transcription of the documented rules.',
     technique='SMT bounded model checking of kernel LLVM IR (llbmc + z3), biconditional oracle'),
@@ -43,20 +44,24 @@ CLAIMED.update({
            'Bounds: <= 3/4 elements, <= 2/3 groups, non-local lists <= 3 of length <= 2/3 (lengths case-split), products with the group assignment case-split.',
            'DESIGN.md sections 3 (C03) and 9.5', 'SMT bounded model checking of kernel and C++ method LLVM IR (llbmc + z3; node-method harness with an opaque content) against independent oracles; native replay (ASan kernels, whole-library akrun)'),
  'C04': mc('Narrow claim: the three list re-alignment kernels behind broadcasting - equal lengths align element for element, unequal lengths '
-           'raise, length-1 regular dimensions repeat - for all target offsets (zero-based, monotone) and list layouts within n <= 3/4, L <= 3/4.',
-           'broadcast_and_apply / array_ufunc (Python over _ext, cannot be imported) are not addressed; this is the kernel core only.', 'DESIGN.md section 3 (C04)'),
+           'raise, length-1 regular dimensions repeat - for all target offsets (zero-based, monotone) and list layouts within n <= 3/4, L <= 3/4. C++ method level: broadcast_tooffsets64 of ListOffsetArray64, '
+           'ListArray64 and RegularArray from their IR over an opaque content (equal lengths align, a size-1 regular dimension repeats its element, unequal lengths raise).',
+           'broadcast_and_apply / array_ufunc (Python over _ext, cannot be imported) are not addressed; this is the kernel core only.', 'DESIGN.md sections 3 (C04) and 9.5', 'SMT bounded model checking of kernel and C++ method LLVM IR (llbmc + z3; node-method harness with an opaque content) against independent oracles; native replay (ASan kernels, whole-library akrun)'),
  'C05': mc('Bounded model checking of the num / localindex / flatten kernels and the num<->compact_offsets round trip against list-structure laws '
            '(concatenation law for flatten offsets, missing list = empty list). C++ method level (from the IR, opaque content): num and localindex of ListOffsetArray64 / '
            'ListArray64 / RegularArray at the list level and below it, IndexedOptionArray64::offsets_and_flattened at and below the list level.',
            'Outside: ak.unflatten (NumPy in Python), completely_flatten, axis plumbing of the C++ methods. Known finding: flatten_offsets reads outside '
            'inneroffsets for a degenerate empty list whose start == stop lies outside the content (accepted by the documented rule).', 'DESIGN.md sections 3 (C05) and 9.5', 'SMT bounded model checking of kernel and C++ method LLVM IR (llbmc + z3; node-method harness with an opaque content) against independent oracles; native replay (ASan kernels, whole-library akrun)'),
  'C07': mc('Bounded model checking of combinations_length -> n carry buffers of totallen -> recursive combinations fill, for n in 1..4, with and '
-           'without replacement, against itertools tables; list lengths case-split (<= 4), starts symbolic; counts, order, no neighbour leakage, fill = count.',
-           'Outside: ak.cartesian/argcartesian (Python), records/options as element types; RegularArray capacity arithmetic done in C++.', 'DESIGN.md section 3 (C07)'),
+           'without replacement, against itertools tables; list lengths case-split (<= 4), starts symbolic; counts, order, no neighbour leakage, fill = count. C++ method level: combinations(n, replacement) at the list level of the three list classes (records '
+           'of carried contents decoded and compared with itertools on the nested list of atoms) and combinations below the four option-type node classes.',
+           'Outside: ak.cartesian/argcartesian (Python), records/options as element types; RegularArray capacity arithmetic done in C++.', 'DESIGN.md sections 3 (C07) and 9.5', 'SMT bounded model checking of kernel and C++ method LLVM IR (llbmc + z3; node-method harness with an opaque content) against independent oracles; native replay (ASan kernels, whole-library akrun)'),
  'C08': mc('Bounded model checking of the fill/shift/simplify kernels: element j of a part lands at tooffset + j, indexes shifted by exactly the '
-           'content base, missing stays missing, numeric fills equal an independently stated C cast, nothing outside the destination range is written.',
+           'content base, missing stays missing, numeric fills equal an independently stated C cast, nothing outside the destination range is written. C++ method level: mergemany of IndexedArray / IndexedOptionArray operands of every index width '
+           '(entries in order, None stays None, option-ness kept), NumpyArray::mergemany of contiguous int64 arrays of any rank (values and buffer bounds), '
+           'UnionArray8_64::simplify_uniontype over a nested union with and without mergeable contents.',
            'Outside: mergeable/mergemany dispatch, NumPy promotion table, ak.concatenate(axis>0) in Python; float->int casts outside the target range (UB) assumed away.',
-           'DESIGN.md section 3 (C08)'),
+           'DESIGN.md sections 3 (C08) and 9.5', 'SMT bounded model checking of kernel and C++ method LLVM IR (llbmc + z3; node-method harness with an opaque content) against independent oracles; native replay (ASan kernels, whole-library akrun)'),
  'C09': mc('Bounded model checking of the rpad pipelines (length kernel sizes the index buffer of the fill kernel) for ListArray, ListOffsetArray, '
            'RegularArray against the pad law, and of ten option-encoding kernels against one shared validity vector (index<0, byte mask either polarity, '
            'bit mask either order and polarity, lengths not a multiple of 8). C++ method level (from the IR, opaque content): rpad and rpad_and_clip of ListOffsetArray64 / ListArray64 / '
@@ -69,24 +74,27 @@ CLAIMED.update({
            'min_range, rpad length, combinations_length) is run on two encodings of the same list structure - ListArray(starts, stops) of width '
            '32/U32/64 with arbitrary origin, gaps and overlap vs the compact zero-based 64-bit form - and must give the same error outcome, counts and '
            'relative carries; five option encodings are checked against one validity vector; normalisation kernels (compact_offsets, toRegularArray, '
-           'contiguous positions) meet their list-semantics contract.',
-           'Kernel level: the C++ methods that decide when to normalise (toListOffsetArray64, project, content restriction) and Python-level operations '
-           'are outside. Bounds: n <= 2/3 lists of length <= 3, |step| <= 2.', 'DESIGN.md section 3 (C02)',
-           'SMT bounded 2-safety (self-composition) over kernel LLVM IR (llbmc + z3); native ASan replay'),
+           'contiguous positions) meet their list-semantics contract. C++ method level: the conversions that operations apply before delegating keep the nested-list '
+           'value - toListOffsetArray64 (with and without re-basing) and toRegularArray of the three list classes, toIndexedOptionArray64 / toByteMaskedArray / project of '
+           'the byte-, bit- and un-masked classes and project of IndexedOptionArray64 - and every node-method harness of C01/C05/C09 runs over symbolic offsets origins, gaps, '
+           'index values and mask bytes, i.e. over all encodings of one value within the case-split shape.',
+           'Python-level operations and conversions to lists/JSON/buffers are outside. Bounds: n <= 2/3 lists of length <= 3, |step| <= 2.', 'DESIGN.md sections 3 (C02) and 9.5',
+           'SMT bounded 2-safety (self-composition) over kernel LLVM IR and node-method harnesses over C++ method IR (llbmc + z3); native replay (ASan kernels, whole-library akrun)'),
  'C12': mc('Safety sweep over every kernel with an executable definition (quick: one specialization per kernel; thorough: all): footprint inside the '
            'extent its specification touches, no store to a Const argument, no division trap, unwinding assertions; validity kernels on arbitrary contents; '
            'sizing pairs (carrylength->range, numtrue->nonzero, rpad length->fill, combinations_length->combinations) with the C++ capacity '
            'expressions; zero-length twins.',
-           'Kernel level; whole-operation purity, lifetime, Python-level behaviour and allocation failure are outside. Known findings: min_range on a '
-           'zero-length array, broadcast_tooffsets with non-monotone offsets.', 'DESIGN.md section 3 (C12)'),
+           'Kernel level plus NumpyArray::mergemany buffer bounds and RecordArray::field at the method level; whole-operation purity, lifetime, Python-level behaviour and allocation failure are outside. Known findings: min_range on a '
+           'zero-length array, broadcast_tooffsets with non-monotone offsets.', 'DESIGN.md sections 3 (C12) and 9.5', 'SMT bounded model checking of kernel and C++ method LLVM IR (llbmc + z3; node-method harness with an opaque content) against independent oracles; native replay (ASan kernels, whole-library akrun)'),
 })
 
 CLAIMED.update({
  'C06': mc('Bounded model checking of awkward_sort / awkward_argsort (with the libstdc++ std::sort / std::stable_sort instantiations from the same IR '
            'module) and awkward_quick_sort: per segment the output is a permutation of the input segment, ordered by the stated comparator with NaN '
-           'first, argsort positions are segment-local and realise the order, stable sorts keep equal keys in input order; segment lengths case-split.',
+           'first, argsort positions are segment-local and realise the order, stable sorts keep equal keys in input order; segment lengths case-split. C++ method level: ListOffsetArray64 sort_next / argsort_next below the list level '
+           '(the content receives exactly the covered elements with their parents, the answer is cut back into the same list lengths).',
            'Bounds: <= 2 segments of <= 3 (ints) / 2 (floats, quick; 3 thorough) elements. Outside: option re-insertion and axis plumbing in the C++ '
-           'sort_next methods, string sorting kernels. Known finding: the unstable float sort (quick_sort) does not put NaN first.', 'DESIGN.md section 3 (C06)'),
+           'sort_next methods, string sorting kernels. Known finding: the unstable float sort (quick_sort) does not put NaN first.', 'DESIGN.md sections 3 (C06) and 9.5', 'SMT bounded model checking of kernel and C++ method LLVM IR (llbmc + z3; node-method harness with an opaque content) against independent oracles; native replay (ASan kernels, whole-library akrun)'),
  'C10': mc('Narrow claim (RecordArray node only): carry(index), getitem_range_nowrap(start, stop) and field(position) of RecordArray executed from their IR on records '
            'with 0..3 opaque field contents: every field content receives the same positional request, record i of the result holds field by field what the request selects '
            'from each content (so projecting a field by position commutes with positional selection), record count and (absent) field names follow; a field position '
@@ -97,7 +105,8 @@ CLAIMED.update({
            'the method IR from an arbitrary state satisfying the representation invariant: writes stay inside the buffer they target, cells [0, old '
            'length) of the old buffer (shared with snapshots) are never written, the prefix is preserved across reallocation, the invariant is re-established. '
            'Builder tree: RecordBuilder::endrecord as one inductive step from any open-record state (fields filled at most once, any key cursor) with opaque field '
-           'builders: every field ends with exactly one entry per closed record (missing fields receive null()).',
+           'builders: every field ends with exactly one entry per closed record (missing fields receive null()); ListBuilder::endlist (offsets grow by the content length) and '
+           'OptionBuilder::null / integer (index gets -1 / the position the value received) as single steps over the real GrowableBuffer code.',
            'The other builders (Unknown/Option/Union/List/Tuple and the leaf builders), from_iter and LayoutBuilder are outside. kernel::malloc stubbed (fresh exact-size buffer), resize in [1.5, 16] '
            '(thorough adds (1, 1.5]).', 'DESIGN.md section 3 (C14)', 'SMT bounded model checking of C++ method LLVM IR (llbmc M-harness, z3 FP); native ASan replay'),
  'C18': mc('Partitioned arrays only: (a) IrregularlyPartitionedArray::partitionid_index_at from its IR for every non-decreasing stops vector of <= 4 (thorough 6) '
@@ -105,8 +114,10 @@ CLAIMED.update({
            'getitem_range_nowrap) and getitem_at from their IR on an IrregularlyPartitionedArray whose partitions are opaque contents: the virtual calls on the '
            'partitions are observation points obeying the CPython-slice contract, every content carries the global positions it stands for, and the pushed result '
            'partitions / stops are compared element by element with range(*slice.indices(total)) of the concatenation, for any int64 start/stop (None included); '
-           'partition lengths and step are case-split (quick: <= 3 partitions, lengths 0..4, |step| <= 3; thorough: <= 4 partitions, lengths 0..5, |step| <= 5).',
-           'VirtualArray, ArrayGenerator, caches, repartition, toContent and partition.py are not addressed. Stubs: Slice/SliceRange bookkeeping, vector push_back, '
+           'partition lengths and step are case-split (quick: <= 3 partitions, lengths 0..4, |step| <= 3; thorough: <= 4 partitions, lengths 0..5, |step| <= 5); (c) lazy arrays: '
+           'ArrayGenerator::generate_and_check (declared length / form enforced, a rejected generation leaves no inferred form) and VirtualArray::array() (cache hit returned as is, '
+           'miss generates and stores, a failed generation stores nothing) with opaque generator, cache, content and forms.',
+           'Interleavings of several operations on one cache, eviction policies (Python caches), repartition, toContent and partition.py are not addressed. Stubs: Slice/SliceRange bookkeeping, vector push_back, '
            'shared_ptr control blocks (null), string building.', 'DESIGN.md sections 3 (C18) and 9.5',
            'SMT bounded model checking of C++ method LLVM IR (llbmc M-harness, observation stubs for opaque partitions); native test-double replay'),
  'C19': mc('Interpreter: (a) one instruction of ForthMachineOf<T,int32>::internal_run (T = int32, int64) from an arbitrary well-formed machine state for 34 '
